@@ -485,6 +485,8 @@ where
         // Handle `ParseError` and `DoctypeToken`; convert everything else to the local `Token` type.
         let token = match token {
             tokenizer::ParseError(e) => {
+                // A parse error is not a token: keep a pending "ignore next LF".
+                self.ignore_lf.set(ignore_lf);
                 self.sink.parse_error(e);
                 return tokenizer::TokenSinkResult::Continue;
             },
